@@ -35,6 +35,46 @@ func TestVerifGinMiddleware(t *testing.T) {
 			router.ServeHTTP(w, httptest.NewRequest("GET", "/ping/7", nil))
 			return vOut{Status: w.Code, Body: w.Body.String(), Panicked: panicked, PanicVal: pv}
 		},
+		Instance: func(ext, fb bool) func(func() error) vOut {
+			var opts []Option
+			if ext {
+				opts = append(opts, WithResourceExtractor(func(*gin.Context) string { return "custom-gin" }))
+			}
+			if fb {
+				opts = append(opts, WithBlockFallback(func(c *gin.Context) { c.AbortWithStatusJSON(http.StatusBadRequest, "fallback") }))
+			}
+			hs := &vHandlers{}
+			type flags struct {
+				panicked bool
+				pv       interface{}
+			}
+			var cur []*flags
+			router := gin.New()
+			router.Use(gin.CustomRecovery(func(c *gin.Context, v interface{}) {
+				f := cur[len(cur)-1]
+				f.panicked, f.pv = true, v
+				c.AbortWithStatus(http.StatusInternalServerError)
+			}))
+			router.Use(SentinelMiddleware(opts...)) // ONE middleware value for all requests of the combination
+			router.GET("/ping/:id", func(c *gin.Context) {
+				if err := hs.call(); err != nil {
+					c.String(http.StatusBadGateway, "err")
+					return
+				}
+				c.String(http.StatusOK, "pong")
+			})
+			return func(h func() error) (out vOut) {
+				f := &flags{}
+				cur = append(cur, f)
+				defer func() { cur = cur[:len(cur)-1] }()
+				hs.with(h, func() {
+					w := httptest.NewRecorder()
+					router.ServeHTTP(w, httptest.NewRequest("GET", "/ping/7", nil))
+					out = vOut{Status: w.Code, Body: w.Body.String(), Panicked: f.panicked, PanicVal: f.pv}
+				})
+				return out
+			}
+		},
 		Rejected: func(o vOut, fallback bool) string {
 			if fallback && o.Status != http.StatusBadRequest {
 				return "the configured fallback was not produced (status " + http.StatusText(o.Status) + ")"
